@@ -52,6 +52,113 @@ def encode_multipart(parts, boundary):
     return bytes(out)
 
 
+def send_with_declared(S, rnd, pn, r, body, declared, half_close=False):
+    """encodes request r with a CONTENT_LENGTH of `declared` while `body` is what is actually sent"""
+    import struct
+    if pn == "http":
+        data = proto.http_encode(r, version=b"1.0").replace(b"Content-Length: %d" % len(r.body), b"Content-Length: %d" % declared, 1)
+    elif pn == "scgi":
+        env = [(k, (b"%d" % declared if k == b"CONTENT_LENGTH" else v)) for k, v in proto.cgi_env(r)]
+        blob = b"".join(k + b"\0" + v + b"\0" for k, v in env)
+        data = str(len(blob)).encode() + b":" + blob + b"," + body
+    else:
+        env = [(k, (b"%d" % declared if k == b"CONTENT_LENGTH" else v)) for k, v in proto.cgi_env(r) if k != b"SCGI"]
+        stdin = proto.fcgi_stream(proto.FCGI_STDIN, 1, body, rnd if rnd.random() < 0.5 else None)     # half of the time the whole body is one record
+        data = proto.fcgi_record(proto.FCGI_BEGIN, 1, struct.pack(">HB5x", 1, 0)) + proto.fcgi_stream(proto.FCGI_PARAMS, 1, proto.fcgi_pairs(env)) + stdin
+    c = srv.Conn(S, pn, timeout=15)
+    try:
+        c.send(data)
+        if half_close:
+            c.half_close()
+        raw, _ = c.recv_all(15)
+    finally:
+        c.close()
+    return proto.http_parse_response(raw) if pn == "http" else (proto.cgi_parse_response(raw) if pn == "scgi" else proto.fcgi_parse_response(raw)["cgi"])
+
+
+def urlencoded_case(S, rnd, windex, ci, cnt, res, sent):
+    """application/x-www-form-urlencoded and raw bodies: delivered exactly, or refused as a whole"""
+    pn = rnd.choice(["http", "scgi", "fastcgi"])
+    app = rnd.choice([b"/echo", b"/aecho"])
+    tok = b"V%d-%d" % (windex, ci)
+    urlenc = rnd.random() < 0.7
+    fields = [(rnd.choice([b"a", b"b", b"name", b"k%d" % i]), rnd.choice([b"", b"1", b"two words", b"x=y&z", b"v" * 200])) for i in range(rnd.choice([1, 2, 5]))]
+    if urlenc:
+        body = b"&".join(proto.pct_encode(k, keep=b"") + b"=" + proto.pct_encode(v, keep=b"").replace(b"%20", b"+") for k, v in fields)
+        ctype = b"application/x-www-form-urlencoded"
+    else:
+        body = bytes(rnd.getrandbits(8) for _ in range(rnd.choice([1, 5, 300, 3000])))
+        ctype = b"application/octet-stream"
+    kind = rnd.choice(["ok", "ok", "longer-than-declared", "shorter-than-declared"] + (["valueless-field", "empty-segment"] if urlenc else []))
+    send_body, declared, expect = body, len(body), "ok"
+    if kind == "longer-than-declared":
+        declared = max(1, len(body) - rnd.choice([1, 2, len(body) // 2]))
+        if declared >= len(body):
+            return
+        # only FastCGI marks the end of the body (empty STDIN record): there a body longer than CONTENT_LENGTH is a contradiction.
+        # On HTTP and SCGI the declared length IS the body; bytes after it are not part of the request
+        if pn != "fastcgi":
+            return
+        expect = "refused"
+    elif kind == "shorter-than-declared":
+        declared = len(body) + rnd.choice([1, 10, 1000])
+        expect = "incomplete"
+    elif kind == "valueless-field":
+        parts = body.split(b"&")
+        parts.insert(rnd.randrange(0, len(parts) + 1), b"flag")
+        send_body = body = b"&".join(parts)
+        declared = len(body)
+        expect = "refused-or-complete"
+    elif kind == "empty-segment":
+        send_body = body = body + b"&&" + b"zz=1"
+        declared = len(body)
+        expect = "refused-or-complete"
+    r = proto.Req(method=b"POST", script=app, path_info=b"/form", query=b"tok=" + tok, body=send_body, content_type=ctype, token=tok)
+    rp = {"proto": pn, "app": app.decode(), "kind": "body:" + kind, "content_type": ctype.decode(), "body": send_body[:300].decode("latin-1"), "declared": declared}
+    try:
+        d = send_with_declared(S, rnd, pn, r, send_body, declared, half_close=(expect == "incomplete"))
+    except OSError:
+        cnt("client_io_errors")
+        return
+    cnt("plain_bodies")
+    cnt("plain_bodies_" + kind)
+    st = d["status"]
+    sent[tok.decode()] = ("body:" + kind, "ok" if expect == "ok" else ("refused" if expect in ("refused", "incomplete") else "either"), app.decode())
+    echo = None
+    if st == 200:
+        try:
+            echo = json.loads(d["body"].decode("latin-1"))
+        except ValueError:
+            pass
+    if expect == "ok":
+        if echo is None:
+            res["viol"].append({"key": "c12:well-formed-body-refused:" + pn, "detail": "status %r" % st, "replay": rp})
+            return
+        post = sorted((bytes.fromhex(a), bytes.fromhex(b)) for a, b in echo["post"])
+        if urlenc and post != sorted(fields):
+            res["viol"].append({"key": "c12:form-fields-differ:" + pn, "detail": "got %r want %r" % (post[:4], sorted(fields)[:4]), "replay": rp})
+            return
+        if echo["raw_len"] != len(body) or ("raw" in echo and bytes.fromhex(echo["raw"]) != body):
+            res["viol"].append({"key": "c12:raw-body-differs:" + pn, "detail": "%d vs %d bytes" % (echo["raw_len"], len(body)), "replay": rp})
+            return
+        cnt("plain_bodies_compared")
+    elif expect in ("refused", "incomplete"):
+        if st == 200:
+            res["viol"].append({"key": "c12:%s-body-delivered:%s" % (kind, pn), "detail": "declared %d, sent %d bytes (%s): status 200, application saw %r" % (declared, len(send_body), ctype.decode(), (echo or {}).get("post", "?")), "replay": rp})
+            return
+        cnt("plain_bodies_refused")
+    else:
+        # a field without '=' or an empty segment: refused as a whole, or delivered as a whole - never in part
+        if st == 200 and echo is not None:
+            post = sorted((bytes.fromhex(a), bytes.fromhex(b)) for a, b in echo["post"])
+            want = sorted(fields + ([(b"zz", b"1")] if kind == "empty-segment" else []))
+            named = sorted(x for x in post if x[0] != b"flag")
+            if named != want:
+                res["viol"].append({"key": "c12:form-delivered-in-part:" + pn, "detail": "body %r: application saw %r" % (send_body[:120], post[:6]), "replay": rp})
+                return
+        cnt("plain_bodies_odd_syntax_checked")
+
+
 def worker(args):
     basedir, exe, seed, ncases, windex = args
     rnd = random.Random(seed)
@@ -66,6 +173,9 @@ def worker(args):
         for ci in range(ncases):
             if res["viol"]:
                 break
+            if rnd.random() < 0.25:
+                urlencoded_case(S, rnd, windex, ci, cnt, res, sent)
+                continue
             boundary = bytes(rnd.choice(b"abcdefXYZ0123456789-_'()+,./:=?") for _ in range(rnd.choice([1, 8, 30, 70]))).rstrip(b" ") or b"B"
             parts = gen_parts(rnd, boundary)
             body = encode_multipart(parts, boundary)
@@ -252,7 +362,7 @@ def worker(args):
             if e.get("ev") == "on_error" and t:
                 errs[t] = errs.get(t, 0) + 1
         for t, (kind, expect, app) in sent.items():
-            if expect != "ok" and expect != "ok-raw-short" and mains.get(t, 0) > 0:
+            if expect not in ("ok", "ok-raw-short", "either") and mains.get(t, 0) > 0:
                 res["viol"].append({"key": "c12:handler-called-for-refused-upload", "detail": "%s %s %s" % (t, kind, app), "replay": None})
                 break
             if errs.get(t, 0) > 1:
